@@ -19,6 +19,7 @@ type Resp struct {
 	Body   []byte
 	CT     string
 	Fault  string // "" | "status" | "transport" | "stall"
+	Delay  time.Duration
 }
 
 // ReqLog is one logged request.
@@ -62,9 +63,9 @@ func (s *Stub) RoundTrip(req *http.Request) (*http.Response, error) {
 	if s.OnReq != nil {
 		s.OnReq(i, kind)
 	}
-	if s.Delay > 0 {
+	if dl := s.Delay + resp.Delay; dl > 0 {
 		select {
-		case <-time.After(s.Delay):
+		case <-time.After(dl):
 		case <-req.Context().Done():
 			return nil, req.Context().Err()
 		}
